@@ -22,6 +22,7 @@ BINARIES = {
     "nf5": ("zzverif/cmd/nf5", False),
     "crash": ("zzverif/cmd/crash", False),
     "sflowc": ("zzverif/cmd/sflowc", False),
+    "c20": ("zzverif/cmd/c20", False),
 }
 
 
@@ -176,6 +177,18 @@ def c05(tier):
                        "placed first/middle/last/alone in a record, as scope or option field, from 4 exporter address forms; every ordered PAIR of values in one record; 1..3 sets x 1..3 records x 1..3 fields. v5: the C08 space, JSON oracle only. sFlow: the C07 sequence, one-hot and frame spaces (published JSON compared with the reference tree). "
                        "Oracle: json.Valid, valid UTF-8, single document, exact key sets, integers as exact decimals, floats bit-exact after ParseFloat (non-finite: any string naming the class), strings equal up to U+FFFD substitution, addresses canonical and parsing back to the same octets, 0x-hex octet arrays. Non-trivial = every case; distinct = wire octets x exporter.",
                   assumptions=FLOW_ASSUME + SF_ASSUME + ["a JSONMarshal error on a decodable message is reported here too (nothing valid can be published for it)"], t0=t0)
+
+
+@check("C20")
+def c20(tier):
+    t0 = time.time()
+    b = build("c20")
+    env = {"VERIF_REPO": orch.REPO, "VERIF_DIR": orch.VERIF}
+    res = [run_space(b, "model.entries", tier, env=env), run_space(b, "model.decode", tier, env=env)]
+    return finish("C20", tier, res,
+                  rule="model.entries: one case per element of the union of the built-in table, the table produced by LoadExtElements on scripts/ipfix.elements and the registry snapshot (402): present in all, same name and type, FieldID = key id, type NAME (read from the Go source text and from the YAML) recognised and equal to the snapshot, table unchanged when the file is absent. "
+                       "model.decode: every element x {natural/fixed length, 1 octet, variable length} x 3 value patterns decoded under both tables (identical) and against the reference interpretation of the snapshot type. Non-trivial = every element / case.",
+                  assumptions=["the registry snapshot /verif/models/ipfix_registry.json was taken from the pinned tree's shipped file (the IANA registry is not reachable offline): drift and disagreement are detected, a transcription error common to both tables and the snapshot is not"], t0=t0)
 
 
 def main(argv):
